@@ -240,21 +240,38 @@ Proof. exact positions_orf_location. Qed.
 Print Assumptions C15_coordinates_positions.
 
 (* every area find_all_orfs scans - whole record, one-part area, origin-spanning area incl. the window joined over
-   the origin - is a window of the record not longer than it, shares at most max_overlap positions with EVERY gene
-   of the record and lies inside the searched part; under the decidable guard Model.gaps_guard (well-formed
-   input, no gene reaches into both parts of an origin-spanning area [else class FC15b]).  The former conjunct
-   "the look-up helper misses no gene overlapping an area part" [class FC15a] is gone: since the repair
-   _overlapping_cds_features tests every gene (Proofs.cds_within_complete) *)
+   the origin - is a window of the record not longer than it, lies inside the searched part and shares at most
+   max_overlap positions with EVERY gene of the record that does not reach into both parts of an origin-spanning area
+   (Model.in_both; for those genes the joined window may hold the allowance of both sides, and the test on the ORFs
+   takes over, C15_gaps_overlap_test); for every well-formed input (Model.gaps_wf).  Neither of the two former guard
+   conjuncts is left: "the look-up helper misses no gene overlapping an area part" [class FC15a] went with the repair
+   _overlapping_cds_features (Proofs.cds_within_complete), "no gene reaches into both parts" [class FC15b] with the
+   repair of find_all_orfs (max_overlap test on the ORFs of an origin-crossing area) *)
 Theorem C15_gaps_areas : forall N cds area ml ov areas,
-  gaps_guard N cds area ml ov = true -> intergenic_for N cds area ml ov = Ok areas ->
+  gaps_wf N cds area ml ov = true -> intergenic_for N cds area ml ov = Ok areas ->
   Forall (area_ok N cds area ov) areas.
 Proof. exact intergenic_for_ok. Qed.
 Print Assumptions C15_gaps_areas.
 
-(* C15_gaps: every feature returned by find_all_orfs lies inside ONE of the intergenic areas, shares at most
-   max_overlap positions with every gene of the record, and lies inside the searched part of the record *)
+(* the test added by the repair of FC15b, for ALL inputs: what find_all_orfs keeps of the ORFs found is a subset, and
+   for an origin-spanning area every kept ORF shares at most max_overlap positions with every gene reaching into both
+   parts of the area (Model.shared = number of positions of the ORF inside the gene; _overlap_size is never smaller,
+   shared_le_overlap_size) *)
+Theorem C15_gaps_overlap_test : forall cds area ov locs l,
+  In l (within_overlap cds area ov locs) ->
+  In l locs /\ forall c, In c cds -> in_both area c = true -> shared l c <= ov.
+Proof. exact within_overlap_In. Qed.
+Print Assumptions C15_gaps_overlap_test.
+
+Theorem C15_gaps_overlap_size : forall o c, shared o c <= overlap_size o c.
+Proof. exact shared_le_overlap_size. Qed.
+Print Assumptions C15_gaps_overlap_size.
+
+(* C15_gaps: for every well-formed input, every feature returned by find_all_orfs lies inside ONE of the intergenic
+   areas, shares at most max_overlap positions with EVERY gene of the record (also a gene reaching into both parts of
+   an origin-spanning area: the former class FC15b, no guard left), and lies inside the searched part of the record *)
 Theorem C15_gaps : forall g cds area ml ov feats f,
-  gaps_guard (zlen g) cds area ml ov = true -> find_all_orfs g cds area ml ov = Ok feats -> In f feats ->
+  gaps_wf (zlen g) cds area ml ov = true -> find_all_orfs g cds area ml ov = Ok feats -> In f feats ->
   (exists areas a, intergenic_for (zlen g) cds area ml ov = Ok areas /\ In a areas /\
                    forall x, In x (positions (floc f)) -> In x (area_positions (zlen g) a)) /\
   (forall c, In c cds -> shared (floc f) c <= ov) /\
@@ -262,20 +279,20 @@ Theorem C15_gaps : forall g cds area ml ov feats f,
 Proof. exact find_all_orfs_gaps. Qed.
 Print Assumptions C15_gaps.
 
-(* the translation clause, ACGT/acgt genomes: the stored translation of every new feature is the protein of the
+(* the translation clause, genomes of IUPAC DNA letters (A C G T and the ambiguity codes, both cases): the stored translation of every new feature is the protein of the
    text its location extracts to (location.extract, C15_coordinates): the codons before the final stop codon
    translated one by one with the standard table, first residue forced to M *)
 Theorem C15_translation : forall g cds area ml ov feats f,
-  gaps_guard (zlen g) cds area ml ov = true -> acgt g ->
+  gaps_wf (zlen g) cds area ml ov = true -> iupac g ->
   find_all_orfs g cds area ml ov = Ok feats -> In f feats ->
   ftrans f = orf_protein (extract g (floc f)).
 Proof. exact find_all_orfs_translation. Qed.
 Print Assumptions C15_translation.
 
 (* hence the boolean specification the check evaluates on EVERY find_all_orfs output of the implementation
-   (Model.feature_ok via run id 12) holds for the model's output whenever the guard does *)
+   (Model.feature_ok via run id 12) holds for the model's output on every well-formed input with a genome of IUPAC DNA letters (A C G T and the ambiguity codes, both cases) *)
 Theorem C15_gaps_spec_ok : forall g cds area ml ov feats,
-  gaps_guard (zlen g) cds area ml ov = true -> forallb acgtb g = true ->
+  gaps_wf (zlen g) cds area ml ov = true -> forallb iupacb g = true ->
   find_all_orfs g cds area ml ov = Ok feats ->
   forallb (feature_ok g cds area ov) feats = true.
 Proof. exact find_all_orfs_spec_ok. Qed.
@@ -289,43 +306,96 @@ Theorem C15_gaps_helper_complete : forall cds p c,
 Proof. intros cds p c. unfold cds_within. exact (filter_In (fun d => overlap d [p]) c cds). Qed.
 Print Assumptions C15_gaps_helper_complete.
 
-(* ... and the recorded witness (nested gene hiding the enclosing gene from the old look-up) is inside the guard: the
+(* ... and on the recorded witness (nested gene hiding the enclosing gene from the old look-up) the
    enclosing gene is found, no ORF inside it is returned *)
 Theorem C15_gaps_FC15a_witness_repaired :
   let g := [67; 67; 67; 67; 67; 67; 67; 67; 67; 67; 67; 67; 67; 67; 67; 67; 67; 67; 67; 67; 67; 67; 67; 67; 67; 67; 67; 67; 67; 67; 67; 67; 67; 65; 84; 71; 65; 65; 65; 84; 65; 65; 67; 67; 67; 67; 67; 67; 67; 67; 67; 67; 67; 67; 67; 67; 67; 67; 67; 67] in
   let cds := [[mkPart 5 40 1]; [mkPart 10 20 1]] in
-  gaps_guard (zlen g) cds (Some [mkPart 30 60 1]) 5 0 = true /\
+  gaps_wf (zlen g) cds (Some [mkPart 30 60 1]) 5 0 = true /\
   cds_within cds (mkPart 30 60 1) = [[mkPart 5 40 1]] /\
   find_all_orfs g cds (Some [mkPart 30 60 1]) 5 0 = Ok [].
 Proof. exact gaps_witness_FC15a_repaired. Qed.
 Print Assumptions C15_gaps_FC15a_witness_repaired.
 
-(* the remaining guard cannot be dropped: the recorded finding FC15b as a statement about the (faithful) model *)
-Theorem C15_gaps_refuted_FC15b : exists g cds area ml ov feats f c,
-  gaps_wf (zlen g) cds (Some area) ml ov = true /\ forallb acgtb g = true /\ gaps_class cds (Some area) = 2 /\
-  find_all_orfs g cds (Some area) ml ov = Ok feats /\ In f feats /\ In c cds /\ ov < shared (floc f) c.
-Proof. exact gaps_refuted_origin. Qed.
-Print Assumptions C15_gaps_refuted_FC15b.
+(* FC15b origin_gene_padding_window, repaired (positive statement replacing C15_gaps_refuted_FC15b): on the recorded
+   witness - well-formed, a gene reaching into both parts of the origin-spanning area (coverage class 2) - the window
+   joined over the origin is still scanned, the ORF join{[38:47](+),[0:3](+)} sharing 12 > 10 positions with the gene is
+   still found in it, and find_all_orfs no longer returns it *)
+Theorem C15_gaps_FC15b_witness_repaired :
+  let g := [84; 65; 71; 84; 67; 71; 84; 71; 84; 71; 67; 84; 71; 65; 67; 84; 84; 71; 65; 65; 84; 84; 84; 67; 67; 71; 84; 67; 71; 71; 84; 71; 67; 67; 65; 84; 71; 84; 65; 84; 71; 67; 65; 84; 67; 71; 84] in
+  let cds := [[mkPart 0 9 (-1); mkPart 36 47 (-1)]; [mkPart 38 42 1]] in
+  let area := [mkPart 26 47 1; mkPart 0 6 1] in
+  gaps_wf (zlen g) cds (Some area) 5 10 = true /\ forallb iupacb g = true /\ gaps_class cds (Some area) = 2 /\
+  intergenic_for (zlen g) cds (Some area) 5 10 = Ok [(37, 47); (-10, 6)] /\
+  In [mkPart 38 47 1; mkPart 0 3 1] (area_orfs g 5 (-10, 6)) /\
+  shared [mkPart 38 47 1; mkPart 0 3 1] [mkPart 0 9 (-1); mkPart 36 47 (-1)] = 12 /\
+  find_all_orfs g cds (Some area) 5 10 = Ok [].
+Proof. exact gaps_witness_FC15b_repaired. Qed.
+Print Assumptions C15_gaps_FC15b_witness_repaired.
 
-(* non-vacuity: the guard holds and a feature is returned - inner area; origin-spanning area with the ORF found in
+(* FC15c ambiguous_stop_translation, repaired: C15_translation above now holds for genomes with ambiguity codes (it rests on
+   Proofs.codon_table_facts: over all 27000 codons of IUPAC letters, "translates to '*'" = "scan_orfs classifies it as a stop
+   codon" - false for the table without TAR and TRA, so the proof breaks if they are taken out again); the recorded witness *)
+Theorem C15_translation_ambiguous_stop_witness_repaired :
+  let g := [67; 67; 67; 65; 84; 71; 65; 65; 65; 84; 65; 82; 65; 65; 65; 65; 65; 65; 84; 65; 65; 67; 67; 67] in
+  forallb iupacb g = true /\ forallb (fun c => existsb (Z.eqb c) [65; 67; 71; 84]) g = false /\
+  translate_codon 84 65 82 = 42 /\ translate_codon 84 82 65 = 42 /\
+  classify 84 65 82 = KStop /\ classify 84 82 65 = KStop /\
+  scan_orfs g 1 0 3 None = [[mkPart 3 12 1]] /\
+  exists f, find_all_orfs g [] None 3 10 = Ok [f] /\ floc f = [mkPart 3 12 1] /\ ftrans f = [77; 75].
+Proof. exact ambiguous_stop_witness_repaired. Qed.
+Print Assumptions C15_translation_ambiguous_stop_witness_repaired.
+
+(* FC15d trimmed_orf_over_origin, repaired: the location get_trimmed_orf builds for the start codon k bases into the ORF
+   (Model.trim_parts) occupies exactly the ORF's record positions without the first k in the order of translation - for any
+   number of parts (an ORF over the origin has two), both strands *)
+Theorem C15_trimmed_positions : forall l k, 0 <= k ->
+  Forall (fun p => ps p <= pe p /\ (pst p = 1 \/ pst p = -1)) l ->
+  positions (trim_parts l k) = skipn (Z.to_nat k) (positions l).
+Proof. exact trim_parts_positions. Qed.
+Print Assumptions C15_trimmed_positions.
+
+Theorem C15_trimmed_witness_repaired :
+  let g' := [65; 65; 65; 65; 65; 65; 84; 65; 65] ++ repeat 67 39 ++ [65; 84; 71; 65; 65; 65; 65; 84; 71; 65; 65; 65] in
+  trim_parts [mkPart 48 60 1; mkPart 0 9 1] 6 = [mkPart 54 60 1; mkPart 0 9 1] /\
+  trim_parts [mkPart 0 12 (-1); mkPart 51 60 (-1)] 6 = [mkPart 0 6 (-1); mkPart 51 60 (-1)] /\
+  exists f, get_trimmed_orf g' [mkPart 48 60 1; mkPart 0 9 1] None None 5 = Ok (Some f) /\
+            floc f = [mkPart 54 60 1; mkPart 0 9 1] /\ ftrans f = [77; 75; 75; 75].
+Proof. exact trimmed_witness_repaired. Qed.
+Print Assumptions C15_trimmed_witness_repaired.
+
+(* non-vacuity: the input is well-formed and a feature is returned - inner area; origin-spanning area with the ORF found in
    the window joined over the origin; whole record *)
 Example C15_gaps_nonvacuous_inner :
   let g := [67; 67; 67; 67; 67; 67; 67; 67; 67; 67; 67; 67; 67; 67; 67; 67; 67; 67; 67; 67; 67; 67; 67; 67; 67; 67; 67; 67; 67; 67; 67; 67; 67; 65; 84; 71; 65; 65; 65; 84; 65; 65; 67; 67; 67; 67; 67; 67; 67; 67; 67; 67; 67; 67; 67; 67; 67; 67; 67; 67] in
-  gaps_guard (zlen g) [[mkPart 5 32 1]] (Some [mkPart 20 60 1]) 5 2 = true /\ forallb acgtb g = true /\
+  gaps_wf (zlen g) [[mkPart 5 32 1]] (Some [mkPart 20 60 1]) 5 2 = true /\ forallb iupacb g = true /\
   exists f, find_all_orfs g [[mkPart 5 32 1]] (Some [mkPart 20 60 1]) 5 2 = Ok [f] /\
             floc f = [mkPart 33 42 1] /\ ftrans f = [77; 75].
 Proof. cbn zeta. split; [vm_compute; reflexivity|]. split; [vm_compute; reflexivity|]. eexists. vm_compute. repeat split. Qed.
 
 Example C15_gaps_nonvacuous_origin :
   let g := [84; 65; 71; 84; 67; 71; 84; 71; 84; 71; 67; 84; 71; 65; 67; 84; 84; 71; 65; 65; 84; 84; 84; 67; 67; 71; 84; 67; 71; 71; 84; 71; 67; 67; 65; 84; 71; 84; 65; 84; 71; 67; 65; 84; 67; 71; 84] in
-  gaps_guard (zlen g) [[mkPart 10 20 1]] (Some [mkPart 26 47 1; mkPart 0 6 1]) 5 10 = true /\ forallb acgtb g = true /\
+  gaps_wf (zlen g) [[mkPart 10 20 1]] (Some [mkPart 26 47 1; mkPart 0 6 1]) 5 10 = true /\ forallb iupacb g = true /\
   exists f, find_all_orfs g [[mkPart 10 20 1]] (Some [mkPart 26 47 1; mkPart 0 6 1]) 5 10 = Ok [f] /\
             floc f = [mkPart 29 47 1; mkPart 0 3 1] /\ ftrans f = [77; 80; 67; 77; 72; 82].
 Proof. cbn zeta. split; [vm_compute; reflexivity|]. split; [vm_compute; reflexivity|]. eexists. vm_compute. repeat split. Qed.
 
 Example C15_gaps_nonvacuous_record :
   let g := [84; 65; 71; 84; 67; 71; 84; 71; 84; 71; 67; 84; 71; 65; 67; 84; 84; 71; 65; 65; 84; 84; 84; 67; 67; 71; 84; 67; 71; 71; 84; 71; 67; 67; 65; 84; 71; 84; 65; 84; 71; 67; 65; 84; 67; 71; 84] in
-  gaps_guard (zlen g) [[mkPart 10 20 1]] None 5 10 = true /\
+  gaps_wf (zlen g) [[mkPart 10 20 1]] None 5 10 = true /\
   exists f1 f2, find_all_orfs g [[mkPart 10 20 1]] None 5 10 = Ok [f1; f2] /\
                 floc f1 = [mkPart 5 14 1] /\ floc f2 = [mkPart 7 19 1].
 Proof. cbn zeta. split; [vm_compute; reflexivity|]. eexists. eexists. vm_compute. repeat split. Qed.
+
+(* non-vacuity inside the former class FC15b: gene [3:40) reaches into both parts of the origin-spanning area
+   join{[30:47],[0:13]} (coverage class 2); the ORF over the origin join{[35:47](+),[0:6](+)} shares 5 + 3 = 8 <= 10
+   positions with it and IS returned - the test on the ORFs removes no ORF the property allows *)
+Example C15_gaps_nonvacuous_gene_in_both :
+  let g := [65; 65; 65; 84; 65; 65; 67; 67; 67; 67; 67; 67; 67; 67; 67; 67; 67; 67; 67; 67; 67; 67; 67; 67; 67; 67; 67; 67; 67; 67; 67; 67; 67; 67; 67; 65; 84; 71; 65; 65; 65; 65; 65; 65; 65; 65; 65] in
+  let cds := [[mkPart 3 40 1]] in
+  let area := [mkPart 30 47 1; mkPart 0 13 1] in
+  gaps_wf (zlen g) cds (Some area) 5 10 = true /\ forallb iupacb g = true /\ gaps_class cds (Some area) = 2 /\
+  shared [mkPart 35 47 1; mkPart 0 6 1] [mkPart 3 40 1] = 8 /\
+  exists f, find_all_orfs g cds (Some area) 5 10 = Ok [f] /\
+            floc f = [mkPart 35 47 1; mkPart 0 6 1] /\ ftrans f = [77; 75; 75; 75; 75].
+Proof. cbn zeta. repeat (split; [vm_compute; reflexivity|]). eexists. vm_compute. repeat split. Qed.
